@@ -111,8 +111,10 @@ def main(argv=None):
     known = load_known()
     rc = 0
     if mism:
-        print("HARNESS-BROKEN property=%s nondeterministic execution for cfg %r" % (pid, mism[:3]))
-        rc = 2
+        # the very same program, run twice in this process, gave two different results: state survives between runs
+        # (class-level or module-level data, mutable default arguments).  Every property presupposes reproducible runs.
+        print("VIOLATION property=%s replay=none clause=%s.deterministic shape=same-execution-run-twice-in-one-process-differs :: configurations %r" % (pid, pid, [m[0] for m in mism[:3]]))
+        rc = 1
     # confirm each violation witness by replaying it twice in this process
     new, seen_known = [], []
     for (clause, shape), (cnt, wit) in sorted(stats.viol.items()):
@@ -124,9 +126,9 @@ def main(argv=None):
                 if not any(v[0] == clause and v[1] == shape for v in res.violations):
                     ok = False
         if not ok:
-            print("HARNESS-BROKEN property=%s violation %s/%s did not reproduce on replay" % (pid, clause, shape))
-            rc = 2
-            continue
+            # seen during exploration but not when its choice list is replayed alone: the outcome depends on what ran before in
+            # the same process (state leaking between runs) - reported, with that caveat in the shape
+            shape = shape + ":only-after-other-runs-in-the-same-process"
         if (pid, clause, shape) in known:
             seen_known.append((clause, shape, cnt, known[(pid, clause, shape)]))
         else:
